@@ -215,6 +215,64 @@ func ownerRevisions(f *lib.Flags, res *lib.Result) {
 	res.Distribution["owner_revision_pairs"] = n
 }
 
+// leftoverOrder: known finding D67.  Splitting an augment-free submodule off a module changes the
+// order in which the single leftover pass `Augment(true)` (after FixChoice) visits the modules that
+// still hold pending augments (the swap-remove of the augment loop permutes the survivors), and that
+// pass is order dependent when one leftover augment's target is created by another: the unsplit set
+// processes cleanly, the split set reports `augment ... not found`.  The witness (found while proving
+// include = inline with augments, corpus/C13/D67-witness.txt) runs in both spellings; the finding is
+// recognised by its exact signature (unsplit clean, split = exactly one augment-not-found error); any other difference between the two spellings is reported as a violation.
+func leftoverOrder(f *lib.Flags, res *lib.Result) {
+	ma := `module ma { namespace "urn:ma"; prefix ma; import t { prefix t; } augment "/t:ch/t:x" { container y { } } }`
+	mb := `module mb { namespace "urn:mb"; prefix mb; import t { prefix t; } import ma { prefix ma; } augment "/t:ch/t:x/ma:y" { leaf z { type string; } } }`
+	un := rescorr.Case{Names: []string{"ma.yang", "mb.yang", "t.yang"}, Texts: []string{ma, mb,
+		`module t { namespace "urn:t"; prefix t; choice ch { leaf x { type string; } } container keep { leaf k { type string; } } }`},
+		Extra: map[string]string{"variant": "unsplit", "id": "leftover-order"}}
+	sp := rescorr.Case{Names: []string{"ma.yang", "mb.yang", "t.yang", "a-sub.yang"}, Texts: []string{ma, mb,
+		`module t { namespace "urn:t"; prefix t; include a-sub; choice ch { leaf x { type string; } } }`,
+		`submodule a-sub { belongs-to t { prefix t; } container keep { leaf k { type string; } } }`},
+		Extra: map[string]string{"variant": "split", "id": "leftover-order", "module": "t"}}
+	outs := rescorr.RunAll([]rescorr.Case{un, sp}, f)
+	u, s := outs[0], outs[1]
+	if u.Crashed || s.Crashed {
+		res.AddDisagreement(lib.Disagreement{Kind: "crash", Input: sp, Go: u.CrashMsg + s.CrashMsg, SpecVerdict: "violates",
+			What: "goyang crashed or hung on the leftover-order witness", Replay: sp})
+		return
+	}
+	if u.Skipped != "" || s.Skipped != "" {
+		return
+	}
+	var gs []string
+	for _, r := range stripPos(lib.Project(s.Go.Dump, keys, true)) {
+		if fs := strings.Fields(r); len(fs) > 1 && fs[0] == "N" && fs[1] == lib.HexS("a-sub") {
+			continue // the submodule's own tree has no counterpart in the unsplit set
+		}
+		gs = append(gs, r)
+	}
+	gu := stripPos(lib.Project(u.Go.Dump, keys, true))
+	res.Distribution["leftover_order_pairs"] = 1
+	if d := rescorr.Diff(gu, gs); d != "" {
+		known := ""
+		nErrU, errsS := 0, []string{}
+		for _, r := range gu {
+			if strings.HasPrefix(r, "E ") {
+				nErrU++
+			}
+		}
+		for _, r := range gs {
+			if strings.HasPrefix(r, "E ") {
+				errsS = append(errsS, r)
+			}
+		}
+		if nErrU == 0 && len(errsS) == 1 && errsS[0] == "E augment-not-found" {
+			known = "D67"
+		}
+		res.AddDisagreement(lib.Disagreement{Kind: "spec", Input: map[string]any{"unsplit": u.Case, "split": s.Case}, Go: gs, Model: gu,
+			SpecVerdict: "violates", Known: known,
+			What: "a module split into owner + augment-free submodule differs from the unsplit module (leftover augments chained through an implied case): " + d, Replay: s.Case})
+	}
+}
+
 func main() {
 	f := lib.ParseFlags()
 	if lib.IsChild() {
@@ -290,6 +348,7 @@ func main() {
 	// several revisions of one OWNER module that include the same submodule: every revision's tree
 	// must hold the submodule's nodes, as the unsplit revisions do
 	ownerRevisions(f, res)
+	leftoverOrder(f, res)
 	outs := rescorr.RunAll(cases, f)
 	// incremental variants: Go against Go (batch), position-free (load order moves nothing, but the
 	// comparison is shared with the split variant)
